@@ -56,6 +56,16 @@ def run(pid, tier, seed, replay=None):
                                   {"op": "removekey", "o": 1, "key": 3}, {"op": "removekey", "o": 1, "key": 2}, {"op": "removekey", "o": 1, "key": 2},
                                   {"op": "writekey", "o": 1, "key": 1, "armed": -1}, {"op": "writemem", "o": 1, "armed": -1},
                                   {"op": "removekey", "o": 1, "key": 1}, {"op": "destroy", "o": 1}])
+        # moves of tables that came from a file (those carry every optional array: extents, periods, keys)
+        for fa, fb in ((1, 2), (2, 3), (3, 1), (1, 1)):
+            sweeps.append([{"op": "construct", "o": 1}, {"op": "read", "o": 1, "file": fa, "armed": -1}, {"op": "moveconstruct", "o": 2, "src": 1},
+                           {"op": "writemem", "o": 2, "armed": -1}, {"op": "compare", "o": 2, "o2": 2}, {"op": "destroy", "o": 2},
+                           {"op": "read", "o": 1, "file": fb, "armed": -1}, {"op": "writemem", "o": 1, "armed": -1}, {"op": "destroy", "o": 1}])
+            sweeps.append([{"op": "constructfrom", "o": 1, "file": fa, "armed": -1}, {"op": "constructfrom", "o": 2, "file": fb, "armed": -1},
+                           {"op": "writekey", "o": 1, "key": 1, "armed": -1}, {"op": "moveassign", "o": 2, "src": 1}, {"op": "writemem", "o": 2, "armed": -1},
+                           {"op": "writemem", "o": 1, "armed": -1}, {"op": "destroy", "o": 2}, {"op": "destroy", "o": 1}])
+            sweeps.append([{"op": "constructfrom", "o": 1, "file": fa, "armed": -1}, {"op": "construct", "o": 2}, {"op": "moveassign", "o": 2, "src": 1},
+                           {"op": "moveassign", "o": 1, "src": 2}, {"op": "writemem", "o": 1, "armed": -1}, {"op": "destroy", "o": 1}, {"op": "destroy", "o": 2}])
         for f in (11, 12, 13, 14, 15, 16):
             sweeps.append([{"op": "construct", "o": 1}, {"op": "read", "o": 1, "file": f, "armed": -1}, {"op": "readmem", "o": 1, "file": f, "armed": -1},
                            {"op": "read", "o": 1, "file": 1, "armed": -1}, {"op": "read", "o": 1, "file": 2, "armed": -1}, {"op": "destroy", "o": 1},
